@@ -19,7 +19,7 @@ CREDS = [{}, {'roles': []}, {'roles': list(gen.ROLES)},
          {'roles': list(gen.ROLES) + ['admin'], 'is_admin': True, 'user_id': 'u', 'project_id': 'p', 'k3': 'tv'}]
 TARGETS = [{}, {'k0': 'v0', 'k1': 'v1', 'k2': 'True', 'k3': 'tv', 'user_id': 'u', 'project_id': 'p'}]
 
-ONE_TOKEN = ["not ''", 'not ""', "'' or role:r0", 'role:r0 and not ""', "not ('' and @)", 'not ("")', "@ or ''", 'not', 'NOT', 'and', 'And', 'or', 'OR', '(', ')', '((', '))', '()', '"foo"', "'foo'", '""', "''",
+ONE_TOKEN = ["@ '", "' @", "(@ ')", 'role:r0 "', "role:r0 and ' role:r1", "not '", '" or @', "@ and ' and @", "not ''", 'not ""', "'' or role:r0", 'role:r0 and not ""', "not ('' and @)", 'not ("")', "@ or ''", 'not', 'NOT', 'and', 'And', 'or', 'OR', '(', ')', '((', '))', '()', '"foo"', "'foo'", '""', "''",
              '"role:r0"', "'role:r0'", 'foo', 'role', 'r0', 'True', 'admin_required', '%(k0)s', '@@', '!!', '@!',
              '"', "'", '(role:r0', 'role:r0)', ')role:r0(', 'not)', '(not', '(and)', '("role:r0")', "('a':'b')"]
 
@@ -78,7 +78,8 @@ def run(ctx, rep):
     pool = common.leaf_pool()
     n_cor = ctx.n(1500, 60000)
     extra_tok = [('(',), (')',), ('and',), ('or',), ('not',), ('check', '"q"'), ('check', "'q'"), ('check', 'foo'),
-                 ('check', 'role:r5'), ('check', '""'), ('check', "''"), ('check', '"role:r0"'), ('check', "'@'")]
+                 ('check', 'role:r5'), ('check', '""'), ('check', "''"), ('check', '"role:r0"'), ('check', "'@'"),
+                 ('check', "'"), ('check', '"'), ('check', "'"), ('check', '"'), ('check', "'x"), ('check', 'x"')]
     for _ in range(n_cor):
         e = gen.gen_e0(ctx.rng, ctx.rng.choice([1, 2, 3]), lambda r: r.choice(pool))
         toks = gen.render(e)
@@ -146,6 +147,10 @@ def _values(ctx, rep, enf):
         vals.append([['role:r0', bad]])
         vals.append(['role:r0', ['role:r1', bad]])
     vals += ['', [], '@', ['@'], [['@']], [[]], [[], []], ['role:r0'], [['role:r0', 'role:r1'], 'role:r2'], ['']]
+    # AND-groups holding a member that is not a check (empty string, colon-less word): such a group can never hold
+    dead = [[['']], [['', '@']], [['@', '']], [[''], ['']], [['foo', '@']], [['@'], ['']][1:], [['', 'role:r0']], [['role:r0', '']],
+            [[' ']], [['@', 'admin']], ['', ['']], [['', '']]]
+    vals += dead
     reqs = [{'op': 'parse', 'v': driver.enc(v)} for v in vals]
     ans = driver.call(reqs)
     rep.rules.append('%d rule values of every JSON/YAML type alone and inside list-of-lists rules, through parse_rule, '
@@ -190,6 +195,12 @@ def _values(ctx, rep, enf):
             elif v in ('', [], '@', ['@'], [['@']]):
                 if any(d != 'allow' for d in decs):
                     rep.fail('value:%r' % (v,), 'always-allow value %r does not allow' % (v,), {'value': v})
+            elif v in dead:
+                bad = [d for d in decs if d != 'deny']
+                if bad:
+                    rep.fail('value:%r' % (v,), 'list rule %r, every group of which holds a member that is not a check, loaded by %s '
+                             '(printed %s) does not deny everywhere: %s' % (v, lname, str(rules['p']), sorted(set(bad))),
+                             {'value': v, 'loader': lname})
             rep.case(key='%s:%r' % (lname, v), nontrivial=True, n=len(decs),
                      sample={'value': v, 'loader': lname, 'printed': str(rules['p'])} if lname == 'load_yaml' else None)
 
